@@ -638,6 +638,12 @@ func (rl *Shell) viDeleteChar() {
 	vii := rl.Iterations.Get()
 
 	for i := 1; i <= vii; i++ {
+		// Only the characters of the current line, from the cursor on: at
+		// the end, the character before the cursor would be cut instead.
+		if rl.cursor.Pos() >= rl.line.Len() || rl.cursor.Char() == '\n' {
+			break
+		}
+
 		cutBuf = append(cutBuf, rl.cursor.Char())
 		rl.line.CutRune(rl.cursor.Pos())
 	}
